@@ -48,10 +48,8 @@ theorem de_ext_all :
   case h_raw =>
     intro k st
     show Ext (fun s => de Rd.slice st (.raw k) s)
-    cases k <;> simp only [de]
-    · exact Ext.map' (readMapped_ext _) _ (fun _ _ _ => rfl)
-    · exact Ext.map' (readMapped_ext _) _ (fun _ _ _ => rfl)
-    · exact Ext.map' (readExact_ext _) _ (fun _ _ _ => rfl)
+    simp only [de]
+    exact Ext.map' (readMapped_ext _) _ (fun _ _ _ => rfl)
   case h_seq =>
     intro k t ih st
     show Ext (fun s => de Rd.slice st (.seq k t) s)
